@@ -26,6 +26,12 @@ channels — what `BatteryPool._system_power_bounds` is made of) is fed with seq
 sample, once the update interval has elapsed, the bounds it STREAMED take the place of `adv` in the clauses above
 and are checked against the real manager on the latest data (`C17_stream_is_latest` is the model side; a case with a
 `stream` key = the last sample of such a history, replayable).
+Histories also carry message timestamps equal to / older than the component's previous one (arrival order decides
+what the latest data is, on both sides), delayed components and components that stop for longer than the 2 s data age
+and resume (while a component is silent that long the pool drops its set: not "the same complete data", not judged).
+Batteries may report capacity 0 (complete, NaN-free data): the bounds clauses are judged as always; when EVERY
+participating battery does, the distribution algorithm defines no min powers and answers requests with Error (not
+OutOfBounds) — counted as an observation, compared with nothing (capacity > 0 is C01's domain).
 A small stream also runs the real `SendOnUpdate(PowerBoundsCalculator)` with its asyncio tasks on the virtual clock
 and requires the streamed `SystemBounds` to equal the one computed through the synchronous seam.
 Correspondence: the same case through `Drivers/PoolBounds.lean`, all outputs compared exactly (rationals as n/d);
@@ -50,7 +56,12 @@ RULE = ("1-4 battery sets of 1-3 batteries x 1-3 inverters; per-component bounds
         "a non-degenerate exclusion zone; distinct by canonical JSON hash.  Plus histories of 3-9 samples on a fixed "
         "topology through ONE real SendOnUpdate(PowerBoundsCalculator) (asyncio tasks, virtual clock): drifts of 1/1500.."
         "1/20000 per sample that accumulate, jumps, repeats, one component changing while the others stay; after every "
-        "sample the STREAMED bounds are checked against the real manager on the latest data")
+        "sample the STREAMED bounds are checked against the real manager on the latest data; half of the histories also "
+        "vary message timestamps and arrival: one sample stamped older than / equal to its predecessor, runs of decreasing "
+        "timestamps, components delayed for 1-3 samples (< 2 s data age) or stopped for > 2 s and resumed (samples during "
+        "such a silence are outside 'the same complete data' and not judged), each followed by tighter bounds of that "
+        "component.  14% of the cases carry batteries reporting capacity 0 (one battery / a whole set / every set; every "
+        "set = the algorithm defines no min powers: oracle only)")
 
 
 def anchors_of(adv: dict | None, enf: dict | None) -> list[Fraction]:
